@@ -381,6 +381,19 @@ func (d *Driver) Step(i int, op Op) {
 			break
 		}
 		d.judgeAvailability(op, s.Kind, s.ID, pre, chain, bad, ms, err, evs)
+		if len(bad) > 0 {
+			// fifth wave (C08-7): the same request from a caller whose context is already
+			// cancelled; the chain still contains a remote layer whose check fails (the
+			// flags are state, not per-call), so mounts must not be handed out either
+			cctx, cancel := context.WithCancel(ctx)
+			cancel()
+			ms2, err2 := d.SN.Mounts(cctx, op.Key)
+			d.judgeUnmounts(op, d.FS.Drain())
+			d.Cfg.Count("result_mounts_cancelled_ctx_"+errClass(err2), 1)
+			if err2 == nil && len(ms2) > 0 {
+				d.violate("c:mounts-handed-out-despite-failed-check:mounts:cancelled-ctx", fmt.Sprintf("%s with a cancelled context returned mounts although remote ancestor(s) %v are not mounted or flagged broken", op, bad))
+			}
+		}
 	case "commit":
 		s := pre.Snaps[op.Key]
 		valid := s != nil && s.Kind == Active && pre.Snaps[op.Name] == nil
